@@ -40,7 +40,10 @@ def cases(draw, max_chroms=4, max_bins=6, max_width=8):
             "store": draw(st.sampled_from(["path", "handle"])), "rot": draw(st.integers(0, 6)),
             # history: after the first chromosome has been queried, chromosomes are renamed on the same object
             # (cyclic shift of the existing names, or fresh names) and the remaining queries use the new names
-            "rename": draw(st.sampled_from([None, None, "shift", "fresh"]))}
+            "rename": draw(st.sampled_from([None, None, "shift", "fresh"])),
+            # history: the same path first held a collection with the same chromosome names and the same number of bins
+            # per chromosome but other bin boundaries, and was queried, before the collection under test was written
+            "prior_layout": draw(st.sampled_from([None, None, "w", "a"]))}
 
 
 def _regions(name, e):
@@ -95,7 +98,19 @@ def check_extent(case, ctx: Ctx):
     n_eval = n_nt = 0
     cls: dict[str, int] = {}
     try:
-        call("create", create_from_model, path, bt, rows, symmetric, h5opts={"compression": None})
+        if case.get("prior_layout"):
+            bt0 = dict(bt, edges=[[2 * x for x in e] for e in bt["edges"]], b=bt["b"] * 2)
+            call("create (earlier collection at the same path)", create_from_model, path, bt0, rows, symmetric, h5opts={"compression": None})
+            c0 = cooler.Cooler(path)
+            for nm, e in zip(bt0["names"], bt0["edges"]):
+                for s0, t0 in ((0, e[-1]), (e[-1] // 2, e[-1]), (1, max(2, e[-1] - 1)), (e[len(e) // 2], e[-1])):
+                    if s0 < t0:
+                        got0 = call(f"extent(({nm!r}, {s0}, {t0})) on the earlier collection", c0.extent, (nm, s0, t0))
+                        want0 = model.overlap_bins(bt0, nm, s0, t0)
+                        check((int(got0[0]), int(got0[1])) == want0, lambda: f"extent(({nm!r}, {s0}, {t0})) = {got0}, want {want0}")
+            del c0
+        call("create", create_from_model, path, bt, rows, symmetric, h5opts={"compression": None},
+             **({"mode": case["prior_layout"]} if case.get("prior_layout") else {}))
         if case["store"] == "handle":
             fh = h5py.File(path, "r")
             clr = cooler.Cooler(fh)
@@ -201,7 +216,8 @@ def check_extent(case, ctx: Ctx):
     kinds = sorted(set(bt["kinds"]))
     ctx.record(case, n_nt > 0, ["extent", *["kind-" + k for k in kinds], "store-" + case["store"],
                                 "reported-fixed" if model.true_binsize(bt) else "reported-variable",
-                                "renamed-" + str(case.get("rename")) if case["store"] == "path" else "renamed-None"],
+                                "renamed-" + str(case.get("rename")) if case["store"] == "path" else "renamed-None",
+                                "after-other-layout-at-same-path" if case.get("prior_layout") else "fresh-path"],
                n_eval=n_eval, n_nontrivial=n_nt)
 
 
